@@ -37,3 +37,40 @@ def pad_entry_ok(tail):
         or (tail[1] == 0x59 and len(tail) >= 4 and len(tail) == 4 + tail[2] * 256 + tail[3] and tail[4:] == zeros(len(tail) - 4))
         or (tail[1] == 0x5A and len(tail) >= 6 and len(tail) == 6 + ((tail[2] * 256 + tail[3]) * 256 + tail[4]) * 256 + tail[5] and tail[6:] == zeros(len(tail) - 6))
     )
+
+
+# ---- C12: merged MPI areas ---------------------------------------------------------------------------
+def hex_merged(contents):
+    """Union of the partial maps stored in the given .hex file contents (in order)."""
+    m = HEX_EMPTY()
+    for c in contents:
+        m = HEX_MERGE(m, HEXMAP(c))
+    return m
+
+
+def all_inside(contents, address, size):
+    return all([HEX_MIN(HEXMAP(c)) >= address and HEX_MAX(HEXMAP(c)) <= address + size - 1 for c in contents])
+
+
+def no_overlaps(contents):
+    """No input overlaps the union of the inputs before it."""
+    return all([not HEX_OVERLAP(hex_merged(contents[:i]), HEXMAP(contents[i])) for i in range(len(contents))])
+
+
+def mpi_record(vendor_name, class_name, downgrade_prevention, independent_updates, signature_verification, size):
+    vid = UUID5(NAMESPACE_DNS, vendor_name)
+    cid = UUID5(vid, class_name)
+    return (b"\x01"
+            + (b"\x02" if downgrade_prevention else b"\x01")
+            + (b"\x02" if independent_updates else b"\x01")
+            + (b"\x01" if signature_verification is None else b"\x02" if signature_verification == "update" else b"\x03")
+            + ones(12) + vid + cid + ones(size - 48))
+
+
+# ---- C20: default version values --------------------------------------------------------------------
+def default_seq_num(version, major, minor, patch, tweak):
+    return (int(version[major]) << 24) + (int(version[minor]) << 16) + (int(version[patch]) << 8) + (int(version[tweak]) if tweak in version else 0)
+
+
+def is_numeral(s):
+    return s.isdecimal()
